@@ -46,7 +46,7 @@ class EncodeSpanningRow(Contract):
     page_width (so the heading's right edge is the table's) and whose text is `text`; the result is that row's RTF.  The
     heading's own formatting defaults are not part of any listed property and are deliberately left unconstrained."""
     target = "services/encoding_service.py::RTFEncodingService.encode_spanning_row"
-    serves = ["C08", "C05", "C01"]
+    serves = ["C08", "C05", "C01", "C11"]
     models = [AttrNoneModel(), StrModel()]
     variants = ["attrs", "none"]
     merge_calls = ("get_attr",)      # the 21 look-ups each branch on "attribute unset": join them as ite values instead of 2^21 paths
@@ -80,6 +80,13 @@ class EncodeSpanningRow(Contract):
             vv = self._v
             site = getattr(node, "lineno", None)
             I.oblige(st, f"C05.heading_text_is_the_given_text@L{site}", _eq(kwargs.get("text"), to_z3(vv["text"])), "post", site)
+            if vv["has"]:
+                # C11 (conversion is controlled per component by text_convert): the group heading is part of the body, so when the
+                # body sets text_convert the heading converts exactly when the body's value for its column says so.  What the heading
+                # does when the attribute is unset is not stated by the property (an RTFBody always sets it) and is left free.
+                tc = AT("text_convert", 0, vv["col"])
+                I.oblige(st, f"C11.heading_converts_exactly_when_the_bodys_text_convert_says_so@L{site}",
+                         Implies(Not(tc.isnone), _eq(kwargs.get("convert"), to_z3(tc.payload))), "post", site)
             return st.alloc(RecObj("TextContent", dict(kwargs), pyclass=cv.pyclass))
 
         def new_border(I, st, cv, args, kwargs, node):
